@@ -29,8 +29,9 @@ def main(tier, only):
     run = common.Run("C11", tier, "other", [common.src_range("src/isla/language.py", f) for f in ["unparse_grammar", "parse_bnf", "BnfEmitter"]] +
                      [common.src_range("src/isla/helpers.py", "instantiate_escaped_symbols")])
     nt, to = (2, 240) if tier == "quick" else (3, 2400)
-    cfgs = [dict(tag="first%d" % i, env={"VERIF_NT": str(nt), "VERIF_FIRST": str(i)}, only=None, timeout=to) for i in range(h_c11.K)]
-    run.bounds = dict(terminals="every terminal string of 1..%d characters over %d characters %r, combined with a second terminal (every single character + 4 two-character strings)" % (nt, h_c11.K, h_c11.ALPHA),
+    uset = "0,1,2,3,5,6,8,9,21,22,23" if tier == "quick" else ""     # quick: the second terminal ranges over 11 of the characters
+    cfgs = [dict(tag="first%d" % i, env={"VERIF_NT": str(nt), "VERIF_FIRST": str(i), "VERIF_USET": uset}, only=None, timeout=to) for i in range(h_c11.K)]
+    run.bounds = dict(terminals="every terminal string of 1..%d characters over %d characters %r, combined with a second terminal (%s + 4 two-character strings); after each round trip the returned grammar is modified in place and the text parsed again" % (nt, h_c11.K, h_c11.ALPHA, "11 of the single characters" if uset else "every single character"),
                       skeletons="3 non-recursive grammar skeletons (terminal next to nonterminals, repeated, with an empty alternative)")
     run.engines = dict(crosshair="crosshair-tool 0.0.110 on z3 4.11.2")
     run.trusted = ["exact language enumeration of the finite grammars in the harness"]
